@@ -389,3 +389,25 @@ ADDED15 = {
 for _pid, _extra in ADDED15.items():
     t, text, note, ref = CLAIMED[_pid]
     CLAIMED[_pid] = (t, text + _extra, note, ref)
+
+ADDED16 = {
+ "C01": " Round 16: the evaluator's package keeps no counters, tables or caches at package level (sharedStateRule as C01.no-process-state).",
+ "C02": " Round 16: the buffer parameter of an unexported function is fresh where every call hands it storage that is fresh in the caller.",
+ "C05": " Round 16: the map of a value handed by pointer to an exported function may be nil for writing (C05.site).",
+ "C06": " Round 16: every answer of the printer for a list or a vector is the result of the list printer, never a text put together on the spot (C06.brackets).",
+ "C07": " Round 16: errors coming back from nested evaluation are handed on as the same value by every level (C03.propagate as C07.unwind).",
+ "C08": " Round 16: the no-trampoline rule also covers the functions of the evaluator's own package.",
+ "C09": " Round 16: every scope has a mutex of its own (C11.own-lock as C09.scope-lock).",
+ "C11": " Round 16: C09.no-reentry adopted (C11.atom-no-reentry).",
+ "C12": " Round 16: defmacro writes into the current scope (C01.scope as C12.defining-scope); every access to a scope's table holds that scope's lock (C11.data as C12.macro-lookup-guard).",
+ "C13": " Round 16: the sequence accessor fails for no list and no vector (C13.accessor-total).",
+ "C14": " Round 16: the sequence accessor fails for no list and no vector, so Equal_Q may drop its error (C14.accessor-total).",
+ "C16": " Round 16: the scanner's token rules are left alone (C06.token-rules as C16.token-rules); an error found by a failed check is handed on as that very error by READ, REPL and their wrappers, so the reader's EOF text reaches the classifier as written (C03.propagate as C16.error-intact).",
+ "C17": " Round 16: the error of a builtin is positioned at the call form, not at one of its operands (C17.reposition); a test of the dispatch string inside an arm is no case of the dispatch.",
+ "C18": " Round 16: printing writes no entry or element into the value (C18.print-pure); no function deferred by EVAL outside stepping code assigns EVAL's results (C18.frame-blind).",
+ "C19": " Round 16: REPL calls no method of the scope itself (C19.repl); no count compared with a fixed limit in the reader (C15.no-limit as C19.no-limit).",
+ "C20": " Round 16: the registration routine binds the adapter on every returning path (C20.always-bound).",
+}
+for _pid, _extra in ADDED16.items():
+    t, text, note, ref = CLAIMED[_pid]
+    CLAIMED[_pid] = (t, text + _extra, note, ref)
